@@ -610,6 +610,33 @@ class SyncRun:
                 self.events.append({'e': 'idlecheck', 's': s, 'uids': uids,
                                     'flags': flags, 'mbx': name})
 
+    def reconnect(self, s: str, how: str = 'eof') -> None:
+        """the connection of s ends (how: 'bad+logout' | 'eof' | 'idle+eof' | 'bad+idle+eof') and
+        s comes back on a new connection, logged in, nothing selected"""
+        w = self.w
+        c = w.conns[s]
+        if 'bad' in how:
+            c.feed(b'zz FETCH (\r\n')          # does not parse
+            w.run_to_completion(s)
+        if 'idle' in how:
+            c.feed(b'zi IDLE\r\n')
+            w.run_to_completion(s)
+        if 'logout' in how:
+            c.feed(b'zl LOGOUT\r\n')
+            w.run_to_completion(s)
+        if not c.done:
+            c.eof()
+            w.run_to_completion(s)
+        w.loop.run_all()
+        self.events.append({'e': 'drop', 's': s, 'at': how})
+        c = w.connect(s)
+        c.take()
+        w.login(s)
+        c.take()
+        self.parse_off[s] = len(c.writer.out)
+        self.inflight[s] = None
+        self.idling[s] = False
+
     def unanswered_idle(self) -> None:
         """after everything has settled: an IDLE that was ended by client input and still has
         no tagged response (cond NONE fails C16_DoneEndsOk / OtherEndsBad)"""
